@@ -249,3 +249,248 @@ def c15_classify(case, impl, why):
             return "leaked-parse-node"
         return None
     return None
+
+
+# --------------------------------------------------------------------------- source-level scanning (Color BASIC side)
+
+def src_blank(line):
+    """a source line with string literals blanked and everything after REM / ' / DATA removed"""
+    out, i, n = [], 0, len(line)
+    while i < n:
+        ch = line[i]
+        if ch == '"':
+            j = line.find('"', i + 1)
+            j = n if j < 0 else j + 1
+            out.append(" " * (j - i))
+            i = j
+            continue
+        if ch == "'" or line.startswith("REM", i):
+            break
+        if line.startswith("DATA", i):
+            # a DATA statement ends at the next colon outside a quoted item
+            j, inq = i + 4, False
+            while j < n and (inq or line[j] != ":"):
+                if line[j] == '"':
+                    inq = not inq
+                j += 1
+            out.append(" " * (j - i))
+            i = j
+            continue
+        out.append(ch)
+        i += 1
+    return "".join(out)
+
+
+def src_comment_closes_early(text):
+    """a REM / ' comment whose text contains `*)` (it would end the BASIC09 comment early: C07)"""
+    for raw in re.split(r"[\r\n]+", text):
+        code = src_blank(raw)
+        if "*)" in raw[len(code):]:
+            return True
+    return False
+
+
+def src_scan(text):
+    """(line numbers, jump targets, #ON ERR, #ON BRK) of a source program, read from the text"""
+    nums, targets, n_err, n_brk = [], [], 0, 0
+    for raw in re.split(r"[\r\n]+", text.replace("\x00", "")):
+        m = re.match(r"\s*(\d+)", raw)
+        if not m:
+            continue
+        nums.append(int(m.group(1)))
+        body = src_blank(raw[m.end():])
+        n_err += len(re.findall(r"ON *ERR *GOTO", body))
+        n_brk += len(re.findall(r"ON *BRK *GOTO", body))
+        for mm in re.finditer(r"(?:GOTO|GOSUB) *(\d+(?: *, *\d+)*)", body):
+            targets += [int(x) for x in re.findall(r"\d+", mm.group(1))]
+        for mm in re.finditer(r"(?:THEN|ELSE) *(\d+)(?= *(?:ELSE|:|$))", body):
+            targets.append(int(mm.group(1)))
+    return nums, targets, n_err, n_brk
+
+
+# --------------------------------------------------------------------------- output-level reading of labels and jumps
+
+def out_labels_and_targets(lines):
+    labels, targets = [], []
+    for line in lines:
+        lab, rest = T.line_label(line)
+        if lab is not None:
+            labels.append(lab)
+        toks = T.code_tokens(rest)
+        for i, (k, t) in enumerate(toks):
+            if k == "id" and t.upper() in ("GOTO", "GOSUB"):
+                j = i + 1
+                while j < len(toks) and toks[j][0] == "num":
+                    targets.append(int(float(toks[j][1])))
+                    j += 1
+                    if j < len(toks) and toks[j] == ("op", ","):
+                        j += 1
+                    else:
+                        break
+            if k == "id" and t.upper() == "THEN" and i + 1 < len(toks) and toks[i + 1][0] == "num" \
+                    and (i + 2 == len(toks) or toks[i + 2] == ("op", "\\")):
+                targets.append(int(float(toks[i + 1][1])))
+    return labels, targets
+
+
+def strip_labels(lines):
+    return [T.line_label(l)[1] for l in lines]
+
+
+# --------------------------------------------------------------------------- C06
+
+def c06(case, impl):
+    text = case["text"]
+    nums, stargets, n_err, n_brk = src_scan(text)
+    must_refuse = None
+    if any(n > 32699 for n in nums):
+        must_refuse = "a line number above 32699"
+    elif n_err > 1 or n_brk > 1:
+        must_refuse = "more than one ON ERR / ON BRK"
+    elif any(t not in nums for t in stargets):
+        must_refuse = f"a jump to the missing line {next(t for t in stargets if t not in nums)}"
+    out = out_text(impl)
+    if out is None or src_comment_closes_early(text):
+        return None
+    if must_refuse and len(set(nums)) == len(nums):
+        return f"converted although the source has {must_refuse}"
+    lines = program_lines(case, out)
+    labels, targets = out_labels_and_targets(lines)
+    if len(set(labels)) != len(labels):
+        dup = next(l for l in labels if labels.count(l) > 1)
+        if nums.count(dup) > 1:
+            return None       # duplicate source line numbers: outside the property's precondition
+        return f"label {dup} occurs on more than one line"
+    for t in targets:
+        if t not in labels:
+            return f"jump to {t} but no emitted line carries that label"
+    handler = (n_err + n_brk) > 0
+    want = set(nums)
+    if flag(case, 3):
+        want = {n for n in nums if n in stargets}
+    elif 0 in want and 0 not in stargets:
+        want.discard(0)
+    if handler and flag(case, 1):
+        want.add(32700)
+    if len(set(nums)) == len(nums) and set(labels) != want:
+        extra, missing = sorted(set(labels) - want), sorted(want - set(labels))
+        return f"labels differ from what the option documents: unexpected {extra[:4]}, missing {missing[:4]}"
+    flipped = out_text(case.get("aux", {}).get("flip_filter", "")) if case.get("aux") else None
+    if flipped is not None and strip_labels(lines) != strip_labels(program_lines(case, flipped)):
+        return "label filtering changed a statement (outputs differ beyond labels)"
+    if handler and flag(case, 1):
+        k = next((i for i, l in enumerate(lines) if T.line_label(l)[0] == 32700), None)
+        if k is None:
+            return "a handler is requested but there is no dispatcher line 32700"
+        disp = [re.sub(r"\s+", " ", l.strip()) for l in lines[k:] if l.strip()]
+        exp = ["32700 ERNO := errnum"]
+        _, st2, _, _ = src_scan(text)
+        brk = re.search(r"ON *BRK *GOTO *(\d+)", "\n".join(src_blank(l) for l in re.split(r"[\r\n]+", text)))
+        err = re.search(r"ON *ERR *GOTO *(\d+)", "\n".join(src_blank(l) for l in re.split(r"[\r\n]+", text)))
+        if brk:
+            exp.append(f"IF ERNO = 2 THEN {int(brk.group(1))}")
+        if err:
+            exp.append(f"GOTO {int(err.group(1))}")
+        if disp != exp:
+            return f"dispatcher is {disp[:3]} instead of {exp}"
+    return None
+
+
+def c06_classify(case, impl, why):
+    if not flag(case, 1) and ("32700" in why):
+        return "handler-without-suffix"
+    return None
+
+
+# --------------------------------------------------------------------------- C11
+
+INIT_LINE = re.compile(r'^\s*(?:[A-Z][A-Z0-9]?\$? := (?:0\.0|0|"")|FOR tmp_1 = 0 TO .* \\ NEXT tmp_1)$')
+
+
+def c11(case, impl):
+    out = out_text(impl)
+    aux = case.get("aux") or {}
+    if out is None or not aux:
+        return None
+    lines = out.rstrip("\n").split("\n")
+
+    def other(key):
+        t = out_text(aux.get(key, ""))
+        return None if t is None else t.rstrip("\n").split("\n")
+
+    # label filtering only removes labels
+    o = other("flip_filter")
+    if o is not None:
+        a, b = (lines, o) if flag(case, 3) else (o, lines)     # a = filtered
+        if strip_labels(a) != strip_labels(b):
+            return "filter_unused_linenum changed more than labels"
+        la = [T.line_label(l)[0] for l in a]
+        lb = [T.line_label(l)[0] for l in b]
+        if any(x is not None and x != y for x, y in zip(la, lb)):
+            return "filter_unused_linenum added or changed a label"
+    # disabling pre-initialisation only removes prologue assignments and fill loops
+    o = other("flip_init")
+    if o is not None:
+        on, off = (lines, o) if flag(case, 4) else (o, lines)
+        it = iter(on)
+        extra = []
+        for l in off:
+            for m in it:
+                if m == l:
+                    break
+                extra.append(m)
+            else:
+                return "initialize_vars=False output is not contained in the initialize_vars=True output"
+        extra += list(it)
+        bad = [l for l in extra if not INIT_LINE.match(l) and l != ""]
+        if bad:
+            return f"initialize_vars changed more than initialisations: {bad[0][:60]!r}"
+    # the width flag only changes the start-up call's flag
+    o = other("flip_width")
+    if o is not None:
+        diff = [(x, y) for x, y in zip(lines, o) if x != y]
+        if len(lines) != len(o) or any(not (x.startswith("RUN _ecb_start(display, ") and y.startswith("RUN _ecb_start(display, ")) for x, y in diff):
+            return "default_width32 changed more than the start-up call"
+        if flag(case, 0) and len(diff) != 1:
+            return "default_width32 did not change the start-up call"
+    # the default string size only changes declared string sizes
+    for key in ("storage_32", "storage_77"):
+        o = other(key)
+        if o is not None:
+            def norm(ls):
+                out = []
+                for l in ls:
+                    if re.match(r"^DIM \S+:STRING\[\d+\]$", l):
+                        continue                      # the allocation lines of the prologue
+                    l = re.sub(r"(?i):\s*STRING\[\d+\]", ": STRING", l)
+                    l = re.sub(r"(?i):\s*STRING\b", ": STRING", l)
+                    if re.match(r"^(\d+ )?\s*DIM ", l):
+                        l = re.sub(r": STRING$", "", l)
+                    out.append(l)
+                return out
+            if norm(lines) != norm(o):
+                a, b = norm(lines), norm(o)
+                k = next((i for i in range(min(len(a), len(b))) if a[i] != b[i]), min(len(a), len(b)))
+                return f"default_str_storage changed more than declared string sizes (line {k}: {a[k][:50] if k < len(a) else None!r} / {b[k][:50] if k < len(b) else None!r})"
+    # suppressing dependencies only removes the header and the bundled procedures
+    if flag(case, 5) and not flag(case, 6):
+        return c13(case, impl, aux.get("nodeps")) if "differs between" in (c13(case, impl, aux.get("nodeps")) or "") else None
+    return None
+
+
+def c11_cli(case, impl):
+    """command line: OS-9 line ends, procedure named after the input file"""
+    if not impl.startswith("ok "):
+        return None
+    data = unhex(impl[3:])
+    if b"\n" in data:
+        return "the output file contains LF line ends"
+    if case["flags"][2] == "0":
+        base = os.path.basename(case["name"])
+        stem = os.path.splitext(base)[0]
+        want = stem if re.fullmatch(r"[a-zA-Z0-9_]+", stem) else "program"
+        if ("\rprocedure %s\r" % want).encode() not in b"\r" + data:
+            return f"no header `procedure {want}` in the output for input file {case['name']!r}"
+    elif re.search(rb"(?m)^procedure ", data.replace(b"\r", b"\n")):
+        return "-D still writes procedure headers"
+    return None
